@@ -26,4 +26,6 @@ PROPS = {
         'explanation': 'should_notify/set_dev_notify/pop_used(used_event)/add_notify_wait_pop proved against the '
                        'specification predicate vring_need_event for all index values incl. wrap-around',
     },
+    'C01': {'level': 'proof', 'units': ['queue'], 'kani_quick': [], 'kani_thorough': []},
+    'C03': {'level': 'proof', 'units': ['queue'], 'kani_quick': [], 'kani_thorough': []},
 }
